@@ -8,7 +8,7 @@
 //	N n cnt (name idx)* raw ; name|-1                 decode of an enum signal
 //	R k s n ; minBits maxBits                         type range (k: i,d)
 //	S v ; r        V n ; r                            calcSizeFromValue / calcValueFromSize
-//	E op* ; (ok:size:max)*                            enum history (A:name:idx R:name M:min U:name:idx C)
+//	E op* ; (ok:size:max)*                            enum history (A:name:idx R:name M:min U:name:idx C K G:j:idx O:j:idx)
 //	X count gsize ; sel size                          multiplexer selector / total size
 package main
 
@@ -600,38 +600,164 @@ func pickIdx(r *rng) int {
 	}
 }
 
+// enumRun executes an enum history token by token (generation and replay share it).
+//
+//	A:name:idx  AddValue          R:name  RemoveValue        U:name:idx  UpdateIndex
+//	C  RemoveAllValues            M:min   SetMinSize
+//	K           continue on a Clone() of the enum; the original stays alive as a shadow
+//	G:j:idx     UpdateIndex(idx) + UpdateName on the j-th value REMOVED earlier (it is no longer part
+//	            of the enum: nothing may change)
+//	O:j:idx     UpdateIndex(idx) on the j-th value of the latest shadow (the enum the current one was
+//	            cloned from): the shadow follows its own values, the current enum does not change
+//
+// K, G and O are no-ops for the model of the current enum.  After every token: GetSize / MaxIndex of
+// the current enum AND of every shadow are compared with their own value lists.
+type enumRun struct {
+	e       *acmelib.SignalEnum
+	ids     map[int]acmelib.EntityID
+	removed []*acmelib.SignalEnumValue
+	shadows []*acmelib.SignalEnum
+	ops     []string
+	obs     []string
+	bad     string
+	badSig  string
+}
+
+func newEnumRun() *enumRun {
+	return &enumRun{e: acmelib.NewSignalEnum("e"), ids: map[int]acmelib.EntityID{}}
+}
+
+func enumConsistent(e *acmelib.SignalEnum) string {
+	realMax := 0
+	for _, v := range e.Values() {
+		if v.Index() > realMax {
+			realMax = v.Index()
+		}
+	}
+	if exp := expectEnumSize(e); exp != e.GetSize() || realMax != e.MaxIndex() {
+		return fmt.Sprintf("GetSize %d MaxIndex %d; largest index of its values %d, smallest width for it (min size %d) is %d", e.GetSize(), e.MaxIndex(), realMax, e.MinSize(), exp)
+	}
+	return ""
+}
+
+func (er *enumRun) apply(tok string) {
+	er.ops = append(er.ops, tok)
+	q := strings.Split(tok, ":")
+	at := func(i int) int { v, _ := strconv.Atoi(q[i]); return v }
+	ok := true
+	e := er.e
+	sizeBefore, maxBefore, nBefore := e.GetSize(), e.MaxIndex(), len(e.Values())
+	untouched := false
+	switch q[0] {
+	case "A":
+		v := acmelib.NewSignalEnumValue(fmt.Sprintf("Val_%d", at(1)), at(2))
+		if err := e.AddValue(v); err != nil {
+			ok = false
+		} else {
+			er.ids[at(1)] = v.EntityID()
+		}
+	case "R":
+		id, have := er.ids[at(1)]
+		if !have {
+			id = acmelib.EntityID("missing")
+		}
+		val, _ := e.GetValue(id)
+		if err := e.RemoveValue(id); err != nil {
+			ok = false
+		} else {
+			delete(er.ids, at(1))
+			if val != nil {
+				er.removed = append(er.removed, val)
+			}
+		}
+	case "U":
+		id, have := er.ids[at(1)]
+		if !have {
+			ok = false
+		} else if v, err := e.GetValue(id); err != nil {
+			ok = false
+		} else if err := v.UpdateIndex(at(2)); err != nil {
+			ok = false
+		}
+	case "C":
+		er.removed = append(er.removed, e.Values()...)
+		e.RemoveAllValues()
+		er.ids = map[int]acmelib.EntityID{}
+	case "M":
+		e.SetMinSize(at(1))
+	case "K":
+		untouched = true
+		if ce, err := e.Clone(); err == nil {
+			ce.SetMinSize(e.MinSize()) // Clone copies the values; the minimum size is configuration
+			if ce.GetSize() != e.GetSize() || ce.MaxIndex() != e.MaxIndex() || len(ce.Values()) != len(e.Values()) {
+				er.fail("c03-enum-clone", fmt.Sprintf("clone has size %d max index %d, %d values; original %d, %d, %d", ce.GetSize(), ce.MaxIndex(), len(ce.Values()), e.GetSize(), e.MaxIndex(), len(e.Values())))
+			}
+			er.shadows = append(er.shadows, e)
+			er.e = ce
+			e = ce
+			er.ids = map[int]acmelib.EntityID{}
+			for _, v := range e.Values() {
+				if n, err := strconv.Atoi(strings.TrimPrefix(v.Name(), "Val_")); err == nil {
+					er.ids[n] = v.EntityID()
+				}
+			}
+		}
+	case "G":
+		untouched = true
+		if len(er.removed) > 0 {
+			v := er.removed[at(1)%len(er.removed)]
+			_ = v.UpdateIndex(at(2))
+			_ = v.UpdateName(fmt.Sprintf("Ghost_%d", at(2)))
+		}
+	case "O":
+		untouched = true
+		if len(er.shadows) > 0 {
+			sh := er.shadows[len(er.shadows)-1]
+			if vs := sh.Values(); len(vs) > 0 {
+				_ = vs[at(1)%len(vs)].UpdateIndex(at(2))
+			}
+		}
+	}
+	er.obs = append(er.obs, fmt.Sprintf("%d:%d:%d", b2i(ok), e.GetSize(), e.MaxIndex()))
+	if untouched && (e.GetSize() != sizeBefore || e.MaxIndex() != maxBefore || len(e.Values()) != nBefore) {
+		er.fail("c03-enum-foreign-edit", fmt.Sprintf("after %s the enum changed (size %d->%d, max index %d->%d, values %d->%d) although the edit concerned %s",
+			strings.Join(er.ops, " "), sizeBefore, e.GetSize(), maxBefore, e.MaxIndex(), nBefore, len(e.Values()),
+			map[string]string{"K": "nothing (Clone)", "G": "a value removed from it earlier", "O": "a value of the enum it was cloned from"}[q[0]]))
+	}
+	if msg := enumConsistent(e); msg != "" {
+		er.fail("c03-enum-size", "after "+strings.Join(er.ops, " ")+": "+msg)
+	}
+	for i, sh := range er.shadows {
+		if msg := enumConsistent(sh); msg != "" {
+			er.fail("c03-enum-clone-source", fmt.Sprintf("after %s: the enum cloned at step K#%d no longer follows its own values: %s", strings.Join(er.ops, " "), i+1, msg))
+		}
+	}
+}
+
+func (er *enumRun) fail(sig, msg string) {
+	if er.bad == "" {
+		er.bad, er.badSig = msg, sig
+	}
+}
+
+func (er *enumRun) record(rc *recorder) {
+	line := rc.emit("enum-history", len(er.ops) >= 3, "E "+strings.Join(er.ops, " "), strings.Join(er.obs, " "))
+	if er.bad != "" {
+		rc.fail(er.badSig, uint64(len(er.ops)), line, er.bad)
+	}
+}
+
 func genEnumHistories(rc *recorder, r *rng, n int) {
 	for c := 0; c < n; c++ {
-		e := acmelib.NewSignalEnum("e")
-		ids := map[int]acmelib.EntityID{}
+		er := newEnumRun()
 		nops := 1 + r.below(14)
-		ops := []string{}
-		obs := []string{}
-		bad := ""
 		for i := 0; i < nops; i++ {
-			ok := true
-			switch k := r.below(13); {
+			e := er.e
+			switch k := r.below(17); {
 			case k < 6:
-				nm, idx := r.below(8), pickIdx(r)
-				ops = append(ops, fmt.Sprintf("A:%d:%d", nm, idx))
-				v := acmelib.NewSignalEnumValue(fmt.Sprintf("Val_%d", nm), idx)
-				if err := e.AddValue(v); err != nil {
-					ok = false
-				} else {
-					ids[nm] = v.EntityID()
-				}
+				er.apply(fmt.Sprintf("A:%d:%d", r.below(8), pickIdx(r)))
 			case k < 8:
-				nm := r.below(8)
-				ops = append(ops, fmt.Sprintf("R:%d", nm))
-				id, have := ids[nm]
-				if !have {
-					id = acmelib.EntityID("missing")
-				}
-				if err := e.RemoveValue(id); err != nil {
-					ok = false
-				} else {
-					delete(ids, nm)
-				}
+				er.apply(fmt.Sprintf("R:%d", r.below(8)))
 			case k == 8 || k == 9:
 				// UpdateIndex: up, down (incl. lowering the current maximum), onto a used index
 				nm := r.below(8)
@@ -640,66 +766,41 @@ func genEnumHistories(rc *recorder, r *rng, n int) {
 					idx = r.below(e.MaxIndex()) // below the current maximum
 				}
 				if r.below(2) == 0 { // prefer the holder of the maximum
-					for n2, id := range ids {
+					for n2, id := range er.ids {
 						if v, err := e.GetValue(id); err == nil && v.Index() == e.MaxIndex() {
 							nm = n2
 						}
 					}
 				}
-				ops = append(ops, fmt.Sprintf("U:%d:%d", nm, idx))
-				id, have := ids[nm]
-				if !have {
-					ok = false
-				} else if v, err := e.GetValue(id); err != nil {
-					ok = false
-				} else if err := v.UpdateIndex(idx); err != nil {
-					ok = false
-				}
+				er.apply(fmt.Sprintf("U:%d:%d", nm, idx))
 			case k == 10:
-				ops = append(ops, "C")
-				e.RemoveAllValues()
-				ids = map[int]acmelib.EntityID{}
+				er.apply("C")
+			case k == 11 || k == 12:
+				er.apply(fmt.Sprintf("M:%d", []int{1, 1, 2, 3, 4, 5, 8, 12, 16, 32, 63, 64, 0, -1}[r.below(14)]))
+			case k == 13:
+				er.apply("K")
+			case k == 14 || k == 15:
+				if len(er.removed) > 0 {
+					er.apply(fmt.Sprintf("G:%d:%d", r.below(8), []int{1000, 70000, 1 << 40, 3, 0}[r.below(5)]))
+				} else {
+					er.apply(fmt.Sprintf("A:%d:%d", r.below(8), pickIdx(r)))
+				}
 			default:
-				m := []int{1, 1, 2, 3, 4, 5, 8, 12, 16, 32, 63, 64, 0, -1}[r.below(14)]
-				ops = append(ops, fmt.Sprintf("M:%d", m))
-				e.SetMinSize(m)
-			}
-			if r.below(12) == 0 {
-				// continue the history on a clone: it must be indistinguishable
-				if ce, err := e.Clone(); err == nil {
-					ce.SetMinSize(e.MinSize())
-					e = ce
-					ids = map[int]acmelib.EntityID{}
-					for _, v := range e.Values() {
-						if n, err := strconv.Atoi(strings.TrimPrefix(v.Name(), "Val_")); err == nil {
-							ids[n] = v.EntityID()
-						}
-					}
+				if len(er.shadows) > 0 {
+					er.apply(fmt.Sprintf("O:%d:%d", r.below(8), []int{1000, 70000, 1 << 40, 5, 0}[r.below(5)]))
+				} else {
+					er.apply("K")
 				}
 			}
-			obs = append(obs, fmt.Sprintf("%d:%d:%d", b2i(ok), e.GetSize(), e.MaxIndex()))
-			realMax := 0
-			for _, v := range e.Values() {
-				if v.Index() > realMax {
-					realMax = v.Index()
-				}
-			}
-			if exp := expectEnumSize(e); (exp != e.GetSize() || realMax != e.MaxIndex()) && bad == "" {
-				bad = fmt.Sprintf("after %s: GetSize %d MaxIndex %d; largest index %d, smallest width for it (min size %d) is %d", strings.Join(ops, " "), e.GetSize(), e.MaxIndex(), realMax, e.MinSize(), exp)
-			}
 		}
-		line := rc.emit("enum-history", nops >= 3, "E "+strings.Join(ops, " "), strings.Join(obs, " "))
-		if bad != "" {
-			rc.fail("c03-enum-size", uint64(nops), line, bad)
-		}
+		er.record(rc)
 	}
 }
 
 func genEnumDecode(rc *recorder, r *rng, n int) {
 	for c := 0; c < n; c++ {
 		e := acmelib.NewSignalEnum("e")
-		type ev struct{ nm, idx int }
-		vals := []ev{}
+		vals := []enumVal{}
 		used := map[int]bool{}
 		want := 1 + r.below(7)
 		negs := c%9 == 0
@@ -720,7 +821,7 @@ func genEnumDecode(rc *recorder, r *rng, n int) {
 			if err := e.AddValue(val); err != nil {
 				panic(err)
 			}
-			vals = append(vals, ev{nm, idx})
+			vals = append(vals, enumVal{nm, idx})
 		}
 		if c%4 == 0 {
 			e.SetMinSize([]int{1, 4, 8, 16, 33, 64, 64}[r.below(7)])
@@ -751,15 +852,7 @@ func genEnumDecode(rc *recorder, r *rng, n int) {
 		if size < 1 || size > 64 {
 			continue
 		}
-		sig, err := acmelib.NewEnumSignal("s", e)
-		if err != nil {
-			panic(err)
-		}
-		msg := acmelib.NewMessage("m", 1, 8)
 		start := r.below(64 - size + 1)
-		if err := msg.InsertSignal(sig, start); err != nil {
-			panic(err)
-		}
 		mask := ^uint64(0)
 		if size < 64 {
 			mask = uint64(1)<<size - 1
@@ -770,56 +863,71 @@ func genEnumDecode(rc *recorder, r *rng, n int) {
 		}
 		sort.Slice(vals, func(i, j int) bool { return vals[i].nm < vals[j].nm })
 		for _, raw := range raws {
-			var sb strings.Builder
-			fmt.Fprintf(&sb, "N %d %d", size, len(vals))
-			for _, v := range vals {
-				fmt.Fprintf(&sb, " %d %d", v.nm, v.idx)
-			}
-			fmt.Fprintf(&sb, " %d", raw)
-			typeBad := ""
-			got, pan := func() (s string, pan string) {
-				defer func() {
-					if x := recover(); x != nil {
-						pan = fmt.Sprint(x)
-					}
-				}()
-				res := msg.SignalLayout().Decode(payload(raw, size, start, r.next()))
-				if len(res) != 1 || res[0] == nil {
-					return "", "bad Decode result"
-				}
-				if _, isStr := res[0].Value.(string); !isStr || res[0].ValueType != acmelib.SignalValueTypeEnum {
-					typeBad = fmt.Sprintf("enum signal decodes to %s:%T", res[0].ValueType, res[0].Value)
-				} else if msg := accessorsOK(res[0]); msg != "" {
-					typeBad = msg
-				}
-				return res[0].ValueAsEnum(), ""
-			}()
-			exp := "-1"
-			for _, v := range vals {
-				if v.idx >= 0 && uint64(v.idx) == raw {
-					exp = strconv.Itoa(v.nm)
-				}
-			}
-			obs := "-1"
-			if pan != "" {
-				obs = "panic"
-			} else if got != "" {
-				obs = strings.TrimPrefix(got, "Val_")
-			}
-			line := rc.emit("enum-decode", exp != "-1", sb.String(), obs)
-			if typeBad != "" {
-				rc.fail("c03-value-type-enum", uint64(len(vals)), line, typeBad)
-			}
-			if pan != "" {
-				rc.fail("c03-enum-decode-panic", uint64(len(vals)), line, pan)
-			} else if obs != exp {
-				sig := "c03-enum-decode"
-				if raw>>63 == 1 && exp == "-1" {
-					sig = "c03-enum-decode-negative-index"
-				}
-				rc.fail(sig, uint64(len(vals)), line, fmt.Sprintf("raw %d decoded to value %q, the value with that index is %s", raw, got, exp))
-			}
+			enumDecodeCase(rc, e, vals, size, start, raw, r.next())
 		}
+	}
+}
+
+type enumVal struct{ nm, idx int }
+
+// enumDecodeCase decodes one raw value of an enum signal on enum e (values vals, width size)
+func enumDecodeCase(rc *recorder, e *acmelib.SignalEnum, vals []enumVal, size, start int, raw, noise uint64) {
+	sig, err := acmelib.NewEnumSignal("s", e)
+	if err != nil {
+		panic(err)
+	}
+	msg := acmelib.NewMessage("m", 1, 8)
+	if err := msg.InsertSignal(sig, start); err != nil {
+		panic(err)
+	}
+	var sb strings.Builder
+	fmt.Fprintf(&sb, "N %d %d", size, len(vals))
+	for _, v := range vals {
+		fmt.Fprintf(&sb, " %d %d", v.nm, v.idx)
+	}
+	fmt.Fprintf(&sb, " %d", raw)
+	typeBad := ""
+	got, pan := func() (s string, pan string) {
+		defer func() {
+			if x := recover(); x != nil {
+				pan = fmt.Sprint(x)
+			}
+		}()
+		res := msg.SignalLayout().Decode(payload(raw, size, start, noise))
+		if len(res) != 1 || res[0] == nil {
+			return "", "bad Decode result"
+		}
+		if _, isStr := res[0].Value.(string); !isStr || res[0].ValueType != acmelib.SignalValueTypeEnum {
+			typeBad = fmt.Sprintf("enum signal decodes to %s:%T", res[0].ValueType, res[0].Value)
+		} else if msg := accessorsOK(res[0]); msg != "" {
+			typeBad = msg
+		}
+		return res[0].ValueAsEnum(), ""
+	}()
+	exp := "-1"
+	for _, v := range vals {
+		if v.idx >= 0 && uint64(v.idx) == raw {
+			exp = strconv.Itoa(v.nm)
+		}
+	}
+	obs := "-1"
+	if pan != "" {
+		obs = "panic"
+	} else if got != "" {
+		obs = strings.TrimPrefix(got, "Val_")
+	}
+	line := rc.emit("enum-decode", exp != "-1", sb.String(), obs)
+	if typeBad != "" {
+		rc.fail("c03-value-type-enum", uint64(len(vals)), line, typeBad)
+	}
+	if pan != "" {
+		rc.fail("c03-enum-decode-panic", uint64(len(vals)), line, pan)
+	} else if obs != exp {
+		sg := "c03-enum-decode"
+		if raw>>63 == 1 && exp == "-1" {
+			sg = "c03-enum-decode-negative-index"
+		}
+		rc.fail(sg, uint64(len(vals)), line, fmt.Sprintf("raw %d decoded to value %q, the value with that index is %s", raw, got, exp))
 	}
 }
 
@@ -830,37 +938,94 @@ func f64OfBig(x *big.Int) float64 {
 	return f
 }
 
+func rangeCase(rc *recorder, k byte, signed bool, n int) {
+	var t *acmelib.SignalType
+	var err error
+	if k == 'i' {
+		t, err = acmelib.NewIntegerSignalType("t", n, signed)
+	} else {
+		t, err = acmelib.NewDecimalSignalType("t", n, signed)
+	}
+	if err != nil {
+		panic(err)
+	}
+	lo, hi := big.NewInt(0), new(big.Int).Sub(new(big.Int).Lsh(big.NewInt(1), uint(n)), big.NewInt(1))
+	if signed {
+		lo = new(big.Int).Neg(new(big.Int).Lsh(big.NewInt(1), uint(n-1)))
+		hi = new(big.Int).Sub(new(big.Int).Lsh(big.NewInt(1), uint(n-1)), big.NewInt(1))
+	}
+	line := rc.emit("range", true, fmt.Sprintf("R %c %d %d", k, b2i(signed), n),
+		fmt.Sprintf("%d %d", math.Float64bits(t.Min()), math.Float64bits(t.Max())))
+	if math.Float64bits(t.Min()) != math.Float64bits(f64OfBig(lo)) || math.Float64bits(t.Max()) != math.Float64bits(f64OfBig(hi)) {
+		sg := "unsigned"
+		if signed {
+			sg = "signed"
+		}
+		rc.fail("c03-range-"+kindName(k)+"-"+sg, uint64(n), line,
+			fmt.Sprintf("%d-bit %s %s type reports [%g, %g], the two's-complement range is [%s, %s]", n, sg, kindName(k), t.Min(), t.Max(), lo, hi))
+	}
+}
+
 func genRanges(rc *recorder) {
 	for _, k := range []byte{'i', 'd'} {
 		for _, signed := range []bool{false, true} {
 			for n := 1; n <= 64; n++ {
-				var t *acmelib.SignalType
-				var err error
-				if k == 'i' {
-					t, err = acmelib.NewIntegerSignalType("t", n, signed)
-				} else {
-					t, err = acmelib.NewDecimalSignalType("t", n, signed)
-				}
-				if err != nil {
-					panic(err)
-				}
-				lo, hi := big.NewInt(0), new(big.Int).Sub(new(big.Int).Lsh(big.NewInt(1), uint(n)), big.NewInt(1))
-				if signed {
-					lo = new(big.Int).Neg(new(big.Int).Lsh(big.NewInt(1), uint(n-1)))
-					hi = new(big.Int).Sub(new(big.Int).Lsh(big.NewInt(1), uint(n-1)), big.NewInt(1))
-				}
-				line := rc.emit("range", true, fmt.Sprintf("R %c %d %d", k, b2i(signed), n),
-					fmt.Sprintf("%d %d", math.Float64bits(t.Min()), math.Float64bits(t.Max())))
-				if math.Float64bits(t.Min()) != math.Float64bits(f64OfBig(lo)) || math.Float64bits(t.Max()) != math.Float64bits(f64OfBig(hi)) {
-					sg := "unsigned"
-					if signed {
-						sg = "signed"
-					}
-					rc.fail("c03-range-"+kindName(k)+"-"+sg, uint64(n), line,
-						fmt.Sprintf("%d-bit %s %s type reports [%g, %g], the two's-complement range is [%s, %s]", n, sg, kindName(k), t.Min(), t.Max(), lo, hi))
-				}
+				rangeCase(rc, k, signed, n)
 			}
 		}
+	}
+}
+
+func sizeCase(rc *recorder, v int) {
+	got := acmelib.VerifCalcSizeFromValue(v)
+	line := rc.emit("calc-size", v > 1, fmt.Sprintf("S %d", v), strconv.Itoa(got))
+	if exp := bitLen(v); got != exp {
+		sig := "c03-calc-size"
+		if v >= 1<<62 {
+			sig = "c03-calc-size-top"
+		}
+		rc.fail(sig, uint64(v), line, fmt.Sprintf("calcSizeFromValue(%d) = %d, the smallest width holding the value is %d", v, got, exp))
+	}
+}
+
+func valueCase(rc *recorder, n int) {
+	got := acmelib.VerifCalcValueFromSize(n)
+	line := rc.emit("calc-value", n > 0, fmt.Sprintf("V %d", n), strconv.Itoa(got))
+	if n >= 1 && n <= 62 && got != 1<<uint(n) {
+		rc.fail("c03-calc-value", uint64(n), line, fmt.Sprintf("calcValueFromSize(%d) = %d, expected 2^%d", n, got, n))
+	}
+	if n >= 1 && n <= 62 {
+		// the importer's use: a selector of n bits must be reproduced by the group count it yields
+		if back := acmelib.VerifCalcSizeFromValue(got - 1); back != n {
+			rc.fail("c03-calc-roundtrip", uint64(n), line, fmt.Sprintf("calcSizeFromValue(calcValueFromSize(%d)-1) = %d", n, back))
+		}
+	}
+}
+
+func muxCase(rc *recorder, c, gs int) {
+	ms, err := acmelib.NewMultiplexerSignal("x", c, gs)
+	if err != nil {
+		panic(err)
+	}
+	sel, tot := ms.GetGroupCountSize(), ms.GetSize()
+	line := rc.emit("mux-size", c > 2, fmt.Sprintf("X %d %d", c, gs), fmt.Sprintf("%d %d", sel, tot))
+	exp := bitLen(c - 1)
+	if sel != exp || tot != gs+exp {
+		rc.fail("c03-mux-selector", uint64(c), line, fmt.Sprintf("%d groups of %d bits: selector %d total %d, smallest selector able to hold group id %d is %d", c, gs, sel, tot, c-1, exp))
+	}
+}
+
+func isDecimalCase(rc *recorder, v float64) {
+	got := acmelib.VerifIsDecimal(v)
+	want := v != math.Trunc(v)
+	rc.hist["is-decimal(go-predicate-only)"]++
+	if got != want {
+		neg := "positive"
+		if v < 0 {
+			neg = "negative"
+		}
+		rc.fail("c03-is-decimal-"+neg, math.Float64bits(math.Abs(v))>>12, fmt.Sprintf("I %d", math.Float64bits(v)),
+			fmt.Sprintf("isDecimal(%g) = %v, the value %s a fractional part", v, got, map[bool]string{true: "has", false: "has no"}[want]))
 	}
 }
 
@@ -874,28 +1039,10 @@ func genSizes(rc *recorder, r *rng, nrand int) {
 		vals = append(vals, int(r.next()>>uint(1+r.below(63))))
 	}
 	for _, v := range vals {
-		got := acmelib.VerifCalcSizeFromValue(v)
-		line := rc.emit("calc-size", v > 1, fmt.Sprintf("S %d", v), strconv.Itoa(got))
-		if exp := bitLen(v); got != exp {
-			sig := "c03-calc-size"
-			if v >= 1<<62 {
-				sig = "c03-calc-size-top"
-			}
-			rc.fail(sig, uint64(v), line, fmt.Sprintf("calcSizeFromValue(%d) = %d, the smallest width holding the value is %d", v, got, exp))
-		}
+		sizeCase(rc, v)
 	}
 	for n := -2; n <= 70; n++ {
-		got := acmelib.VerifCalcValueFromSize(n)
-		line := rc.emit("calc-value", n > 0, fmt.Sprintf("V %d", n), strconv.Itoa(got))
-		if n >= 1 && n <= 62 && got != 1<<uint(n) {
-			rc.fail("c03-calc-value", uint64(n), line, fmt.Sprintf("calcValueFromSize(%d) = %d, expected 2^%d", n, got, n))
-		}
-		if n >= 1 && n <= 62 {
-			// the importer's use: a selector of n bits must be reproduced by the group count it yields
-			if back := acmelib.VerifCalcSizeFromValue(got - 1); back != n {
-				rc.fail("c03-calc-roundtrip", uint64(n), line, fmt.Sprintf("calcSizeFromValue(calcValueFromSize(%d)-1) = %d", n, back))
-			}
-		}
+		valueCase(rc, n)
 	}
 }
 
@@ -913,17 +1060,7 @@ func genIsDecimal(rc *recorder, r *rng) {
 		vals = append(vals, f, math.Trunc(f), float64(int64(r.next()>>uint(r.below(60))))/float64(int64(1)<<uint(r.below(8))))
 	}
 	for _, v := range vals {
-		got := acmelib.VerifIsDecimal(v)
-		want := v != math.Trunc(v)
-		rc.hist["is-decimal(go-predicate-only)"]++
-		if got != want {
-			neg := "positive"
-			if v < 0 {
-				neg = "negative"
-			}
-			rc.fail("c03-is-decimal-"+neg, math.Float64bits(math.Abs(v))>>12, fmt.Sprintf("I %d", math.Float64bits(v)),
-				fmt.Sprintf("isDecimal(%g) = %v, the value %s a fractional part", v, got, map[bool]string{true: "has", false: "has no"}[want]))
-		}
+		isDecimalCase(rc, v)
 	}
 }
 
@@ -940,22 +1077,13 @@ func genMux(rc *recorder, r *rng, thorough bool) {
 		counts = append(counts, 1<<uint(k)-1, 1<<uint(k), 1<<uint(k)+1)
 	}
 	for _, c := range counts {
-		gs := 1 + r.below(56)
-		ms, err := acmelib.NewMultiplexerSignal("x", c, gs)
-		if err != nil {
-			panic(err)
-		}
-		sel, tot := ms.GetGroupCountSize(), ms.GetSize()
-		line := rc.emit("mux-size", c > 2, fmt.Sprintf("X %d %d", c, gs), fmt.Sprintf("%d %d", sel, tot))
-		exp := bitLen(c - 1)
-		if sel != exp || tot != gs+exp {
-			rc.fail("c03-mux-selector", uint64(c), line, fmt.Sprintf("%d groups of %d bits: selector %d total %d, smallest selector able to hold group id %d is %d", c, gs, sel, tot, c-1, exp))
-		}
+		muxCase(rc, c, 1+r.below(56))
 	}
 }
 
 // ---------------------------------------------------------------------------- replay of one case
 
+// replay re-runs exactly one case line of any kind (the input part, before " ; ")
 func replay(rc *recorder, line string) {
 	f := strings.Fields(line)
 	atoi := func(s string) int { v, _ := strconv.Atoi(s); return v }
@@ -969,8 +1097,39 @@ func replay(rc *recorder, line string) {
 		}
 		d := newDecoderV(ts, atoi(f[7]), variant)
 		decodeCase(rc, d, atou(f[6]), 0, "replay")
+	case "R":
+		rangeCase(rc, f[1][0], f[2] == "1", atoi(f[3]))
+	case "S":
+		sizeCase(rc, atoi(f[1]))
+	case "V":
+		valueCase(rc, atoi(f[1]))
+	case "X":
+		muxCase(rc, atoi(f[1]), atoi(f[2]))
+	case "I":
+		isDecimalCase(rc, math.Float64frombits(atou(f[1])))
+	case "E":
+		er := newEnumRun()
+		for _, tok := range f[1:] {
+			er.apply(tok)
+		}
+		er.record(rc)
+	case "N":
+		// N size cnt (name idx)* raw : enum of that width (minimum size) with those values, one raw value
+		size, cnt := atoi(f[1]), atoi(f[2])
+		vals := []enumVal{}
+		for i := 0; i < cnt; i++ {
+			vals = append(vals, enumVal{atoi(f[3+2*i]), atoi(f[4+2*i])})
+		}
+		e := acmelib.NewSignalEnum("e")
+		for _, v := range vals {
+			if err := e.AddValue(acmelib.NewSignalEnumValue(fmt.Sprintf("Val_%d", v.nm), v.idx)); err != nil {
+				panic(err)
+			}
+		}
+		e.SetMinSize(size)
+		enumDecodeCase(rc, e, vals, e.GetSize(), 0, atou(f[3+2*cnt]), 0)
 	default:
-		fmt.Println("replay supports D lines; other kinds are regenerated by the seeded run")
+		fmt.Println("unknown case kind", f[0])
 	}
 }
 
@@ -995,8 +1154,14 @@ func main() {
 		genEnumDecode(rc, r, map[bool]int{false: 1500, true: 40000}[thorough])
 		genDecode(rc, r, thorough)
 	}
-	rc.w.Flush()
-	fh.Close()
+	// END marker: a truncated or half-written case file must not read as a short clean run
+	fmt.Fprintf(rc.w, "END %d\n", rc.cases)
+	if err := rc.w.Flush(); err != nil {
+		panic(err)
+	}
+	if err := fh.Close(); err != nil {
+		panic(err)
+	}
 	sf, err := os.Create(out + ".summary")
 	if err != nil {
 		panic(err)
